@@ -44,6 +44,18 @@ impl Rejects {
     }
 }
 
+/// Write evidence and exit: 1 on a violation, 2 when anything was left undecided (harness self-check failed, a discrepancy
+/// did not reproduce on the canonical build, too many generated programs rejected, VM did not run), else 0.
+pub fn finish(rep: &Report) -> ! {
+    let code = rep.finish_code();
+    let undecided = rep.inconclusive.lock().unwrap().clone();
+    if code == 0 && !undecided.is_empty() {
+        eprintln!("INCONCLUSIVE: {:?}", undecided.iter().map(|s| truncate(s, 300)).collect::<Vec<_>>());
+        std::process::exit(2);
+    }
+    std::process::exit(code)
+}
+
 /// Only the first worker thread that meets a failure goes on reporting (and shrinking) it; the other threads stand down.
 /// Every shrink step costs a compilation, so eight threads shrinking eight copies of one defect is wasted time.
 #[derive(Default)]
@@ -195,6 +207,20 @@ fn probe(args: &[String]) {
     println!("bytecode {} bytes", b.bytecode.len());
     if flag("--abi") {
         println!("{}", serde_json::to_string_pretty(&b.abi).unwrap());
+    }
+    if flag("--resolve") {
+        match abi::AbiView::new(&b.abi) {
+            Err(e) => println!("unify: {e}"),
+            Ok(view) => {
+                for l in view.unified.logged_types.clone().unwrap_or_default() {
+                    let name = b.abi.logged_types.as_ref().and_then(|lt| lt.iter().find(|x| x.log_id == l.log_id)).and_then(|x| b.abi.concrete_types.iter().find(|c| c.concrete_type_id == x.concrete_type_id)).map(|c| c.type_field.clone()).unwrap_or_default();
+                    match view.resolve(&l.application) {
+                        Ok(_) => println!("logged {name}: resolves"),
+                        Err(e) => println!("logged {name}: UNRESOLVABLE {e}"),
+                    }
+                }
+            }
+        }
     }
     for a in args[1..].iter().filter(|a| !a.starts_with("--")) {
         let data = hex::decode(a).expect("hex");
